@@ -57,6 +57,7 @@ class Acc(object):
         self.samples = []
         self.strata = {}
         self.skipped = 0
+        self.hangs = 0
         self.viol_strata = {}
 
     def add(self, index, seed, scenario, res, keep_sample):
@@ -107,6 +108,7 @@ class Acc(object):
         for k, v in o.viol_strata.items():
             self.viol_strata[k] = self.viol_strata.get(k, 0) + v
         self.skipped += o.skipped
+        self.hangs += o.hangs
         self.sim += o.sim
         self.nviol += o.nviol
         self.violations.extend(o.violations)
@@ -148,8 +150,30 @@ def _worker(engine, prop, tier, master, k, gen_id, start, stride, max_index,
         scenario = None
         try:
             scenario = engine.gen(Tape(seed), prop, tier)
-            res = engine.execute(scenario, prop)
-            acc.add(i, seed, scenario, res, keep_sample=(i < 3 * stride))
+            iso = getattr(engine, 'needs_isolation', None)
+            if iso is not None and iso(scenario):
+                # configurations known to corrupt memory must not share a process with later runs
+                kind, val = run_isolated(engine, scenario, prop)
+                if kind == 'ok':
+                    res = val
+                elif kind == 'invalid':
+                    raise InvalidScenario(val)
+                elif kind == 'error':
+                    acc.errors.append((i, val))
+                    res = None
+                elif kind == 'hang' and not getattr(engine, 'HANG_IS_VIOLATION', True):
+                    acc.hangs += 1
+                    res = dict(violations=[], digest=0, nontrivial=False, inconclusive=True)
+                else:
+                    sg = engine.sig_of(scenario) if hasattr(engine, 'sig_of') else {}
+                    v = dict(invariant=kind, detail=val, sig=sg)
+                    if sg.get('cls'):
+                        v['class'] = '%s %s' % (kind, sg['cls'])
+                    res = dict(violations=[v], digest=0, nontrivial=False)
+            else:
+                res = engine.execute(scenario, prop)
+            if res is not None:
+                acc.add(i, seed, scenario, res, keep_sample=(i < 3 * stride))
         except InvalidScenario as e:
             acc.skipped += 1     # the generator over-approximates; the executor refused the scenario
         except Exception:
@@ -243,6 +267,8 @@ def _iso_violations(engine, scenario, prop):
     kind, val = run_isolated(engine, scenario, prop)
     if kind == 'ok':
         return val.get('violations', []), val
+    if kind == 'hang' and not getattr(engine, 'HANG_IS_VIOLATION', True):
+        return [], None
     if kind in ('crash', 'hang'):
         sig = engine.sig_of(scenario) if hasattr(engine, 'sig_of') else {}
         v = dict(invariant=kind, detail=val, sig=sig)
@@ -280,7 +306,11 @@ def _match_value(have, want):
 
 def matches(violation, entry):
     sig = entry.get('signature', {})
-    if sig.get('invariant') != violation.get('invariant'):
+    inv = sig.get('invariant')
+    if isinstance(inv, list):
+        if violation.get('invariant') not in inv:
+            return False
+    elif inv != violation.get('invariant'):
         return False
     vs = violation.get('sig', {}) or {}
     for k, want in sig.get('where', {}).items():
@@ -568,7 +598,10 @@ def run_check(engine, prop, tier, master, runs=None, budget_s=None, out=print):
         harness_errors.append('run %d: %s' % (idx, text))
 
     # --- crashes / hangs: confirm alone
+    unrepro_known = {}
     for idx, kind in crashes[:10]:
+        if kind == 'hang' and not getattr(engine, 'HANG_IS_VIOLATION', True):
+            continue
         seed = derive_seed(master, prop, idx)
         try:
             scenario = engine.gen(Tape(seed), prop, tier)
@@ -582,7 +615,15 @@ def run_check(engine, prop, tier, master, runs=None, budget_s=None, out=print):
             acc.viol_classes[vs[0]['invariant']] = acc.viol_classes.get(vs[0]['invariant'], 0) + 1
             acc.violations.append((idx, seed, scenario, vs[0]))
         else:
-            harness_errors.append('run %d (%s) killed its worker but did not do so again alone' % (idx, kind))
+            # memory-dependent crash: attribute it to a known finding that covers crashes of this
+            # configuration, otherwise it is a problem of the harness (never a pass, never a violation)
+            pv = dict(invariant='crash', detail='not reproduced alone',
+                      sig=(engine.sig_of(scenario) if hasattr(engine, 'sig_of') else {}))
+            e = next((e for e in known_active if matches(pv, e)), None)
+            if e is not None:
+                unrepro_known[e['id']] = unrepro_known.get(e['id'], 0) + 1
+            else:
+                harness_errors.append('run %d (%s) killed its worker but did not do so again alone' % (idx, kind))
 
     # --- triage violations
     known_hits = {}
@@ -645,10 +686,11 @@ def run_check(engine, prop, tier, master, runs=None, budget_s=None, out=print):
             strata=acc.strata if len(acc.strata) <= 400 else dict(n_strata=len(acc.strata)),
             components=meta.get('components', {}),
             known_finding_matches=known_hits,
+            unreproduced_crashes_attributed_to_known_findings=unrepro_known,
             violation_classes=acc.viol_classes,
             violation_strata=acc.viol_strata,
             generated_but_refused_as_invalid=acc.skipped,
-            crashes_or_hangs=len(crashes),
+            crashes_or_hangs=len(crashes) + acc.hangs,
             workers=nw,
             exhaustive=False,
         ),
